@@ -351,10 +351,11 @@ func Run(t *testing.T, o Opts, fn func(w *World)) (out Outcome) {
 			select {
 			case <-w.done:
 			case <-time.After(o.Limit):
-				w.Violate("world exceeded its virtual time limit of %v", o.Limit)
-				w.mu.Lock()
-				w.cond.Broadcast()
-				w.mu.Unlock()
+				// the director never finished although far more virtual time passed than any
+				// scenario needs (e.g. Close waiting for something that keeps re-arming timers):
+				// report and end the process, the driver attributes it to the case in flight
+				fmt.Fprintf(os.Stderr, "VERIF-FATAL world exceeded its virtual time limit of %v: the scenario (a Close, DeletePeer, WriteUpdate or wait in it) never completed\n%s\n", o.Limit, strings.Join(w.Log.Dump(80), "\n"))
+				os.Exit(4)
 			}
 		}()
 		if !o.NoServe {
